@@ -563,6 +563,24 @@ impl World {
                 }
             }
         }
+        // ---- model-free: every event a contract call contributes is attributed to a contract that ran
+        // ("carrying the contract address", "with the contract address as first attribute")
+        if act.ok {
+            let ran: BTreeSet<&str> = act.trace.iter().filter(|e| e.kind != puppet::Kind::Query).map(|e| e.contract.as_str()).collect();
+            'events: for r in &act.responses {
+                for ev in &r.events {
+                    let of_contract = ev.ty == "wasm" || ev.ty.starts_with("wasm-") || matches!(ev.ty.as_str(), "execute" | "instantiate" | "migrate" | "sudo" | "reply");
+                    if !of_contract {
+                        continue;
+                    }
+                    let first = ev.attributes.first();
+                    if !first.map_or(false, |a| a.key == "_contract_address" && ran.contains(a.value.as_str())) {
+                        discs.push(Disc { owners: vec!["C04"], sig: "response:event-without-contract-address".into(), msg: format!("event {:?} does not start with the address of a contract that ran in this call: {:?}", ev.ty, ev.attributes.iter().map(|a| (a.key.as_str(), a.value.as_str())).collect::<Vec<_>>()), model_free: true });
+                        break 'events;
+                    }
+                }
+            }
+        }
         // ---- top-level message order (execute_multi)
         if let Call::Multi(_, msgs, _) = &call {
             if msgs.len() > 1 {
@@ -704,6 +722,11 @@ impl World {
                     }
                 }
             }
+        }
+        // ---- model-free, last (it never decides who owns a divergence from the reference): a contract that
+        // cannot read its own writes back ("what the contract itself reads back ... are the same data")
+        if let Some(e) = act.trace.iter().find(|e| !e.complaint.0.is_empty()) {
+            discs.push(Disc { owners: vec!["C08"], sig: "views:own-writes-not-read-back".into(), msg: format!("{} ({:?}, node {:?}): {}", e.contract, e.kind, e.node, e.complaint.0), model_free: true });
         }
         let mut reply_modes = BTreeSet::new();
         let mut replies = 0;
